@@ -6,7 +6,8 @@ Model driver for C02. One case = one history on a fresh Directory volume:
   (also: `points <id>,<id>,…` — the instrumenter's points.json; answers points-ok iff it is the
   model's skeleton)
   seed:<B>:intact|corrupt|trash     environment: plant a copy of body B
-  tick                              environment: all timestamps old, all trash deadlines expired
+  tick                              environment: all timestamps old, all trash deadlines expired, full marker stale
+  full                              environment: the volume is marked full (<root>/full -> now)
   put:<B>:<mode>                    PUT through the router          mode = run | k<i> | c<i> | m<j>x<chunk>
                                     (m: context cancelled when WriteBlock has read j chunks of <chunk> bytes from the pipe)
   wb:<B>:<chunk>:<rd>:<limit>:<mode>  WriteBlock with a scripted reader; rd = eof | e<j> | x<j>
@@ -73,6 +74,7 @@ structure St where
   ticks : Nat := 0
   sfx : Nat := 0
   bodies : List Body := []
+  full : Bool := false      -- <root>/full marker younger than an hour: IsFull()
 
 def St.note (st : St) (b : Body) : St :=
   if st.bodies.any (fun x => x.spec == b.spec) then st else { st with bodies := st.bodies ++ [b] }
@@ -172,7 +174,10 @@ def stepOp (st : St) (op : String) (last : Bool) : Option (List (St × Option St
     else none
   | ["tick"] =>
     let k := st.ticks + 1
-    some [({ st with ticks := k, fs := tickFS st.fs k }, none)]
+    some [({ st with ticks := k, fs := tickFS st.fs k, full := false }, none)]
+  | ["full"] =>
+    -- the marker keepstore itself creates: symlink <root>/full -> <unix time> (10 characters)
+    some [({ st with full := true, fs := st.fs.set ⟨[], "full".toList⟩ ⟨List.replicate 10 0, 0⟩ }, none)]
   | ["put", bs, ms] => do
     let b ← parseBody bs
     let mode ← parseMode ms
@@ -180,10 +185,10 @@ def stepOp (st : St) (op : String) (last : Bool) : Option (List (St × Option St
     let st1 := { st with sfx := st.sfx + 1 }
     let chunks := if b.data.isEmpty then [] else [b.data]
     let mk (attempts : List WBIn) (cancelled cmpCancelled : Bool) : List Ev × Resp :=
-      handlePut (hashOf st) st.fs ⟨b.h, b.data, nowT, none, attempts, cancelled, cmpCancelled⟩
+      handlePut (hashOf st) st.fs ⟨b.h, b.data, nowT, none, attempts, cancelled, cmpCancelled, st.full⟩
     let code : Resp → String
       | .ok200 => "200" | .badRequest => "400" | .hashMismatch => "422" | .collision => "500"
-      | .disconnect => "503" | .fail => "500"
+      | .disconnect => "503" | .fail => "500" | .full => "503"
     let full := mk [wbIn st b chunks .eof .none] false false
     let out (r : List Ev × Resp) (mark : Bool) : St × Option String :=
       let (st2, _, pts) := execMode st1 r.1 .run
@@ -235,7 +240,7 @@ def stepOp (st : St) (op : String) (last : Bool) : Option (List (St × Option St
     if ja > all.length || jb > all.length then none
     let hp (sfx : Nat) (chunks : List Bytes) (rend : ReaderEnd) (cancelled : Bool) : List Ev × Resp :=
       handlePut (hashOf st) st.fs
-        ⟨b.h, b.data, nowT, none, [⟨b.h, natDigits sfx, chunks, rend, .none, nowT⟩], cancelled, false⟩
+        ⟨b.h, b.data, nowT, none, [⟨b.h, natDigits sfx, chunks, rend, .none, nowT⟩], cancelled, false, st.full⟩
     let fullA := hp st.sfx all .eof false
     if !(allPoints fullA.1).any (fun p => p.startsWith "WriteBlock:") then none
     let cmpLen := (compareEvs st.fs b.h).length
@@ -260,6 +265,7 @@ def stepOp (st : St) (op : String) (last : Bool) : Option (List (St × Option St
     if chunk == 0 then none
     let st := st.note b
     let st1 := { st with sfx := st.sfx + 1 }
+    if st.full then some [(st1, seg st1 "err" [])] else
     let all := splitChunks chunk b.data
     -- reader script
     let (given, rend, killAt) : List Bytes × ReaderEnd × Option Nat ←
